@@ -75,6 +75,14 @@ class Tr:
             return out
         if isinstance(n, ast.UnaryOp) and isinstance(n.op, ast.Not):
             return f"(negb {self.b(n.operand)})"
+        if isinstance(n, ast.Compare) and len(n.ops) > 1:
+            # chained comparison a OP b OP c  ==  (a OP b) and (b OP c)
+            terms = [n.left] + list(n.comparators)
+            parts = [self.b(ast.Compare(left=terms[k], ops=[n.ops[k]], comparators=[terms[k + 1]])) for k in range(len(n.ops))]
+            out = parts[0]
+            for x in parts[1:]:
+                out = f"(andb {out} {x})"
+            return out
         if isinstance(n, ast.Compare) and len(n.ops) == 1:
             a, c = self.q(n.left), self.q(n.comparators[0])
             t = type(n.ops[0])
@@ -264,7 +272,35 @@ def group_guard():
     return out
 
 
-GROUPS = [("lp", group_lp), ("sel", group_sel), ("cov", group_cov), ("norm", group_norm), ("cn", group_cn), ("guard", group_guard)]
+def group_region():
+    """interval tests of the pileup: sam._in_region (read against the gene's wide region) and the RefSeq-window test of
+    Sample._make_coverage"""
+    out = []
+    add = _adder(out)
+    t = tree("sam.py")
+    fn = one([n for n in t.body if isinstance(n, ast.FunctionDef) and n.name == "_in_region"], "_in_region")
+    rets = [n.value for n in ast.walk(fn) if isinstance(n, ast.Return) and not (isinstance(n.value, ast.Constant))]
+    ret = one(rets, "_in_region: interval test")
+    a = one([n.value for n in ast.walk(fn) if isinstance(n, ast.Assign) and ast.unparse(n.targets[0]) == "a"], "_in_region: a =")
+    b = one([n.value for n in ast.walk(fn) if isinstance(n, ast.Assign) and ast.unparse(n.targets[0]) == "b"], "_in_region: b =")
+    if ast.unparse(a) != "(read.reference_start, read.reference_end)" or ast.unparse(b) != "(region.start, region.end)":
+        raise FailClosed(f"_in_region: a/b changed: {ast.unparse(a)} / {ast.unparse(b)}")
+    add("region_overlap", ["a0", "a1", "b0", "b1"], "bool", ret, {"a[0]": "a0", "a[1]": "a1", "b[0]": "b0", "b[1]": "b1"}, "region_overlap")
+    mk = func(t, "Sample._make_coverage")
+    bnd = one([n.value for n in ast.walk(mk) if isinstance(n, ast.Assign) and ast.unparse(n.targets[0]) == "bounds"], "_make_coverage: bounds =")
+    if ast.unparse(bnd) != "(min(self.gene.chr_to_ref), max(self.gene.chr_to_ref))":
+        raise FailClosed("_make_coverage: bounds changed: " + ast.unparse(bnd))
+    tests = [n.test for n in ast.walk(mk) if isinstance(n, ast.If) and "bounds" in ast.unparse(n.test)]
+    test = one(tests, "_make_coverage: window test")
+    if not (isinstance(test, ast.BoolOp) and isinstance(test.op, ast.And) and len(test.values) == 2
+            and isinstance(test.values[0], ast.UnaryOp) and isinstance(test.values[0].op, ast.Not)
+            and ast.unparse(test.values[1]) == "mut[:3] != 'ins'"):
+        raise FailClosed("_make_coverage: window test shape changed: " + ast.unparse(test))
+    add("window_inside", ["lo", "pos", "hi"], "bool", test.values[0].operand, {"bounds[0]": "lo", "bounds[1]": "hi", "pos": "pos"}, "window_inside")
+    return out
+
+
+GROUPS = [("region", group_region), ("lp", group_lp), ("sel", group_sel), ("cov", group_cov), ("norm", group_norm), ("cn", group_cn), ("guard", group_guard)]
 
 PRELUDE = """(* GENERATED by harness/gen_exprs.py from /repo's current sources - do not edit.
    Each definition is the structural translation of ONE expression of the code; the source text is quoted. *)
